@@ -1418,6 +1418,10 @@ func planC17(tier string, seed int64) (*Plan, error) {
 	add(tb, "3,3,2", a3, "container", "quote")
 	add(tbX, "3,3,2", a3, "container", "list")
 	add(gfm, "2,3,3,2", a3)
+	// histories: a table with its delimiter row in the same byte range converted first on the same instance
+	add(tb, "3,3", a5, "hist", "xx|y\n-|-\n"+tokSep+"a|b\n-|-\n1|2\n")
+	add(tbX, "3,3,2", a3c, "hist", "xxxx\n:-\n"+tokSep+"a|b\n:-:\nc\n")
+	add(tb, "3,0,3", "|a-", "delim", ":-|-:", "hist", "xx|y\n-|-\n"+tokSep+"a|b\n--|--\n1|2\n")
 	if thorough {
 		add(tb, "4,4", a5)
 		add(tb, "3,3,3", a5)
@@ -1451,7 +1455,7 @@ func planC17(tier string, seed int64) (*Plan, error) {
 	}
 	p.Jobs = jobs
 	p.Bounds = map[string]interface{}{
-		"T(table)":  "documents of 2-4 lines (header, delimiter, body rows; optionally a paragraph line first; optionally inside '> ' or '- '), every line a symbolic string of the listed length over the listed alphabet: (3,3),(2,3),(3,2),(1,1) over {|,-,:,space,a}; (4,4),(5,3),(3,3,3),(3,3,2,2),(2,3,4),(2,3,3,2) over {|,-,a}; (3,4) over {|,-,:}; header/body of 3-4 bytes over {|,a,\\,`} with concrete delimiter rows '-|-', '|:-|-:|', '-', ':-:|-|-' (escaped pipes, pipes in code spans); (3,3,2) over {|,-,a} in a quote and in a list item",
+		"T(table)":  "documents of 2-4 lines (header, delimiter, body rows; optionally a paragraph line first; optionally inside '> ' or '- '), every line a symbolic string of the listed length over the listed alphabet: (3,3),(2,3),(3,2),(1,1) over {|,-,:,space,a}; (4,4),(5,3),(3,3,3),(3,3,2,2),(2,3,4),(2,3,3,2) over {|,-,a}; (3,4) over {|,-,:}; header/body of 3-4 bytes over {|,a,\\,`} with concrete delimiter rows '-|-', '|:-|-:|', '-', ':-:|-|-' (escaped pipes, pipes in code spans); (3,3,2) over {|,-,a} in a quote and in a list item; three of the cases again after two concrete documents (a table whose delimiter row occupies the same byte range) were converted on the same instance",
 		"free-form": fmt.Sprintf("S(2) all extensions; S(%d,{a,|,-,LF}) and S(%d,{|,-,:,LF,space})", la, la),
 		"W(C_tbl,1)": fmt.Sprintf("%d seeded (document of extension/_test/table.txt, offset) pairs with one symbolic byte (thorough: every offset, and 300 two-byte windows)", nwin),
 		"oracle":    "tree: one TableHeader first, every row has len(Alignments) cells, each cell carries its column's alignment; header and delimiter row are split independently by the harness (rows without backslash/backtick) and must have equal cell counts, delimiter colons must match the alignments; output: one thead with one row, every tr has as many th/td as columns, each cell's align/style attribute is its column's",
